@@ -159,7 +159,10 @@ CLAIMS = {
 # rules added in later rounds (kept apart from the first-build texts above)
 EXTRA = {
     "C01": "Also: nothing on the reader thread discards input unseen (no skip_until / seek on the source, no skipping adaptor on the line "
-           "iterator); a read loop is left when the read reports 0 bytes; the -o sort function is interpreted as a whole on an unknown -o.",
+           "iterator); a read loop is left when the read reports 0 bytes; the -o sort function is interpreted as a whole on an unknown -o. "
+           "The obligation inventory is complete: reader-thread bodies that no analysed context interprets (line loop, connect loop, "
+           "set-up and printing glue) are scanned and must contain no panic site of their own (Assert terminator, Option unwrap, "
+           "indexing, explicit panic; Result::expect only on lock / file-open / write-to-String results).",
     "C03": "The table updater is described independently of its style (entry/and_modify/or_insert, match on Entry, get_mut/insert).",
     "C07": "In every decode context that is not a DF17/18 TC1-4 squitter the emitter category is not written.",
     "C08": "Slot coherence: the CPR fields and the receive time of a slot are written under one condition that does not depend on the row's previous contents.",
